@@ -31,10 +31,7 @@ def constraintHolds (m : Msg) : Constraint → Bool
   | .path v => m.path == .some v
   | .pathNs v => pathIn m v
   | .dest v => m.dest == .some v
-  | .arg0ns v =>
-    match m.arg? 0 with
-    | some (.str a) => a == v || (v ++ ['.']).isPrefixOf a
-    | _ => false
+  | .arg0ns v => arg0In m v
   | .arg i v => argIs m (i, v)
   | .argPath i v => argPathIs m (i, v)
 
